@@ -39,9 +39,10 @@ def hexs(s):
     return s.encode().hex()
 
 
-def gen_history(rng, n_sets, n_stacks, length, inputs=None):
+def gen_history(rng, n_sets, n_stacks, length, inputs=None, others=None):
     """random well-formed history; returns token list and, per result set, (query A/B, stack id)"""
     inputs = inputs or INPUTS
+    OTHERS = others or globals()["OTHERS"]
     toks = ["s%d=%s" % (j, hexs(inputs[j])) for j in range(n_stacks)]
     live, info = [], {}
     nxt = 0
@@ -109,6 +110,45 @@ def malformed_input(ctx):
     return obj
 
 
+def purity_object(ctx):
+    """two DWARF 4 units with different base addresses, each with a subprogram whose DW_AT_high_pc is an offset
+    (libdw reads it by trial and error), a constant of an unnamed structure type in block form, and parameters
+    whose location lists have several base-relative entries"""
+    from vlib.dwgen import Attr, Die, Unit, Forest, write_object
+    from vlib import dwloc
+    lists = [[(0x0, 0x8, [("DW_OP_reg0",)]), (0x8, 0x10, [("DW_OP_reg1",)]), (0x10, 0x20, [("DW_OP_fbreg", -8)]), (0x20, 0x30, [("DW_OP_reg2",)])],
+             [(0x4, 0xc, [("DW_OP_reg3",)]), (0xc, 0x1c, [("DW_OP_lit1",), ("DW_OP_stack_value",)]), (0x1c, 0x2c, [("DW_OP_reg4",)])],
+             [(0x0, 0x10, [("DW_OP_reg5",)]), (0x10, 0x18, [("DW_OP_reg6",)]), (0x18, 0x28, [("DW_OP_reg7",)])],
+             [(0x2, 0x6, [("DW_OP_reg8",)]), (0x6, 0xa, [("DW_OP_reg9",)]), (0xa, 0x1a, [("DW_OP_reg10",)]), (0x1a, 0x2a, [("DW_OP_reg11",)])]]
+    offs, off = [], 0
+    for entries in lists:
+        offs.append(off)
+        for b, e, o in entries:
+            off += 8 + 8 + 2 + len(dwloc.expr_layout(o)[1])
+        off += 16
+    units = []
+    for i, base in enumerate((0x10000, 0x20000)):
+        st = Die("DW_TAG_structure_type", [Attr("DW_AT_byte_size", "DW_FORM_data1", 4)], [Die("DW_TAG_member", [Attr("DW_AT_name", "DW_FORM_string", b"a")])])
+        kids = [st,
+                Die("DW_TAG_variable", [Attr("DW_AT_name", "DW_FORM_string", b"s%d" % i), Attr("DW_AT_type", "DW_FORM_ref4", st),
+                                        Attr("DW_AT_const_value", "DW_FORM_block1", [1 + i, 2, 3, 4])]),
+                Die("DW_TAG_subprogram", [Attr("DW_AT_name", "DW_FORM_string", b"f%d" % i), Attr("DW_AT_low_pc", "DW_FORM_addr", base),
+                                          Attr("DW_AT_high_pc", "DW_FORM_data4", 0x40)],
+                    [Die("DW_TAG_formal_parameter", [Attr("DW_AT_name", "DW_FORM_string", b"p%d" % k), Attr("DW_AT_location", "DW_FORM_sec_offset", offs[2 * i + k])]) for k in (0, 1)])]
+        units.append(Unit(Die("DW_TAG_compile_unit", [Attr("DW_AT_name", "DW_FORM_string", b"pure%d" % i), Attr("DW_AT_low_pc", "DW_FORM_addr", base)], kids, flag=True), 4))
+    f = Forest(units)
+    f.loc = lists
+    d = os.path.join(common.BUILD, "dw", "C12-" + ctx.tier)
+    os.makedirs(d, exist_ok=True)
+    obj = os.path.join(d, "purity.o")
+    write_object(f, obj)
+    return obj
+
+
+PURITY_PROGRAMS = ["entry @AT_const_value", "entry ?AT_high_pc high", "entry @AT_location address", 'entry @AT_location "%s"',
+                   "entry (|E| [E high], [E @AT_const_value])", "entry @AT_location elem label", "entry ?AT_location (|E| [E @AT_location address])"]
+
+
 def run(ctx):
     oblig = common.prepare(ctx)
     if oblig is None:
@@ -123,6 +163,12 @@ def run(ctx):
     g = zgen.G(ctx.sub_rng("gen"), max_depth=2, illtyped=0.02)
     progs += [(g.program(), None) for _ in range(40 if quick else 400)]
     progs += [(p, f) for p in DW_PROGRAMS for f in (files if not quick else rng.sample(files, 2))]
+    # what one execution asked libdw must not show in the next: errors left pending by calls that succeeded,
+    # state that a walk keeps between its steps
+    pure_obj = purity_object(ctx)
+    progs += [(p, pure_obj) for p in PURITY_PROGRAMS]
+    dw_others = ['"%s" dwopen entry ?AT_high_pc high' % pure_obj, '"%s" dwopen entry @AT_location address' % pure_obj, '"%s" dwopen entry @AT_const_value' % pure_obj,
+                 '"%s" dwopen entry attribute value' % pure_obj, '"%s" dwopen entry @AT_decl_file' % pure_obj]
     progs += [(p, bad_obj) for p in ("entry parent offset", "entry [|E| E offset, E parent offset]", "entry offset", "raw entry parent offset",
                                      "[entry] length", "unit root child parent label", "entry (|E| E parent (|P| P child (== E))) offset")]
 
@@ -140,7 +186,7 @@ def run(ctx):
     hist_lines, meta = [], []
     for p, f in progs:
         for _ in range(3 if quick else 12):
-            toks, info = gen_history(rng, 3, 3, rng.choice([6, 10, 16, 30, 60]), None if f is None else DW_INPUTS)
+            toks, info = gen_history(rng, 3, 3, rng.choice([6, 10, 16, 30, 60]), None if f is None else DW_INPUTS, None if f is None else OTHERS + dw_others * 2)
             hist_lines.append(zw.enc(p, m="hist", script=",".join(toks), dw=f, t=10))
             meta.append((p, f, toks, info))
     # histories run many per process (so that statics / caches survive from one to the next)
@@ -218,7 +264,7 @@ def run(ctx):
     ctx.cov.update({
         "evaluations": evaluations,
         "distinct_nontrivial": nontrivial,
-        "rule": "histories (random, length 6-30) of execute/pull/destroy over <= 3 live result sets and 3 input stacks, over the query compiled once and a second time, with unrelated queries (other backtick-bracket depths, closures, blocks) compiled/executed in between, %d programs (22 hand-picked covering every stateful construct, random ones, 14 DWARF producers on sample files and on a unit that cannot be walked to its end); every pull compared with a fresh run in a fresh process; non-trivial = a result set pulled more than once while another one is live" % len(progs),
+        "rule": "histories (random, length 6-30) of execute/pull/destroy over <= 3 live result sets and 3 input stacks, over the query compiled once and a second time, with unrelated queries (other backtick-bracket depths, closures, blocks) compiled/executed in between, %d programs (22 hand-picked covering every stateful construct, random ones, 14 DWARF producers on sample files and on a unit that cannot be walked to its end, 7 on a generated file whose values make libdw probe and keep state: offset-form high_pc, constants of unnamed structure types, multi-entry location lists in units with different base addresses; there the unrelated queries in between open that file and ask the same things); every pull compared with a fresh run in a fresh process; non-trivial = a result set pulled more than once while another one is live" % len(progs),
         "samples": samples,
         "traces_validated_against_impl": len(hist_lines),
         "programs": len(progs), "histories": len(hist_lines),
